@@ -529,7 +529,15 @@ class HTTPConnection(_HTTPConnection):
         _shutdown = getattr(self.sock, "shutdown", None)
 
         # Get the response from http.client.HTTPConnection
-        httplib_response = super().getresponse()
+        has_connected_to_proxy = self._has_connected_to_proxy
+        try:
+            httplib_response = super().getresponse()
+        except ConnectionError:
+            # http.client has already called close(), which resets the proxy
+            # state, but the proxy *was* reached: a reset/EOF while waiting for
+            # the response is a read error, not a failure to connect to the proxy.
+            self._has_connected_to_proxy = has_connected_to_proxy
+            raise
 
         try:
             assert_header_parsing(httplib_response.msg)
